@@ -41,6 +41,7 @@ type Contract struct {
 	Requires      []Clause
 	Ensures       []Clause
 	Modifies      []string
+	NotSpawned    string // structural: never the callee of a go statement
 	LoopInv       map[int][]Clause
 	StepLemma     map[int][]Clause
 	LoopMod       map[int][]string
@@ -524,6 +525,12 @@ func (cs *Contracts) parseContractLines(lines []string, file string, pkgPath str
 			cur.MayPanic = true
 		case "uncalled":
 			cur.Uncalled = true
+		case "not_spawned":
+			// structural: no go statement of the program starts this function (with the reason)
+			cur.NotSpawned = strings.TrimSpace(rest)
+			if cur.NotSpawned == "" {
+				cur.NotSpawned = "must run synchronously"
+			}
 		case "locked_assume":
 			cl, err := parseClause(rest, where)
 			if err != nil {
